@@ -72,8 +72,16 @@ def cases(draw):
             "newp": {p["name"]: draw(st.sampled_from([0.5, 2.0, 5.0, -1.5])) for p in env["params"]}}
 
 
+@st.composite
+def special_cases(draw):
+    which = draw(st.sampled_from(["bigmag", "bigmag", "wide"]))
+    env, recipe, order, pts = draw(gen.bigmag() if which == "bigmag" else gen.wide())
+    return {"env": env, "expr": recipe, "stratum": which, "order": order, "vstratum": "perm" if which == "bigmag" else "decl", "points": pts,
+            "config": "default", "sense": draw(st.sampled_from(["minimize", "maximize"])), "newp": {}, which: True}
+
+
 def strategy(tier):
-    return cases()
+    return st.one_of(cases(), cases(), cases(), cases(), cases(), cases(), cases(), special_cases())
 
 
 def sample_repr(case):
@@ -105,7 +113,7 @@ def check(case):
         V = [objs[nm] for nm in order]
         try:
             hf = compile_hessian(e, V)
-            Hs = compute_hessian(e, V)
+            Hs = compute_hessian(e, V) if n <= 12 else None   # the symbolic matrix of a 64-variable model is 4096 expressions: compiled only
         except Exception as ex:
             return Result.violation(f"hessian-raises:{exc_label(ex)}", f"{show(recipe)} V={order}: {ex!r}", classes)
         path = getattr(hf, "__name__", "?")
@@ -113,7 +121,7 @@ def check(case):
         # the Hessian the solver receives
         solver_h, pnames = None, None
         used = gen.used_vars(recipe, env)
-        if used:
+        if used and not case.get("bigmag") and not case.get("wide"):
             prob = Problem()
             (prob.minimize if case["sense"] == "minimize" else prob.maximize)(e)
             try:
@@ -142,7 +150,7 @@ def check(case):
             classes.append("params-updated-after-compilation")
           for pt in case["points"]:
             j, sc = jet_ref(env, recipe, order, pt, pv, second=True)
-            if not sc.ok or sc.maxabs > 1e4 or sc.sing < 0.1:  # second derivatives are judged in the well-conditioned regime
+            if not sc.ok or sc.maxabs > (1e150 if case.get("bigmag") else 1e4) or sc.sing < 0.1:  # second derivatives are judged in the well-conditioned regime
                 continue
             ref, shadow = j.H, j.aH
             if not np.all(np.isfinite(ref)):
@@ -165,7 +173,7 @@ def check(case):
                 return Result.violation(f"compiled-hessian-mismatch:{path}",
                                         f"{show(recipe)} V={order} at { {k: pt[k] for k in order} }: entry {i} got {H[i]!r} "
                                         f"reference {ref[i]!r}\n got={H.tolist()}\n ref={ref.tolist()}", classes)
-            for a in range(n):
+            for a in range(n if Hs is not None else 0):
                 for c in range(n):
                     try:
                         got = to_float(Hs[a][c].evaluate(dict(pt)))
